@@ -465,6 +465,63 @@ pub fn nearblocks(seed: u64, thorough: bool) -> Vec<BuildSpec> {
             }
         }
     }
+    out.extend(shapedblocks(seed, thorough));
+    out
+}
+
+/// C02 / C07: data blocks SHAPED at the codeword level.  In byte mode at full capacity every data codeword after the header is under
+/// the payload's control (a 4-bit shift), so whole blocks can be given a shape: the padding alternation EC 11 (either phase) - exact, or
+/// with its first / middle / last codeword changed -, all zero, all 0xFF, a copy of another block, another block reversed or rotated.
+/// Pairs of such shapes are placed in two blocks (short and long ones) of cells with diverse block geometry.  Shortcuts that recognise
+/// 'a block I have seen' or 'a padding block' by an incomplete test are exposed by exactly these contents.
+pub fn shapedblocks(seed: u64, thorough: bool) -> Vec<BuildSpec> {
+    let mut out = Vec::new();
+    let mut r = rng(seed, 17);
+    let cells: &[(usize, usize)] = if thorough { &[(7, 2), (5, 2), (5, 3), (6, 1), (8, 1), (9, 2), (10, 0), (13, 3), (15, 2), (22, 3), (27, 0)] } else { &[(7, 2), (5, 3), (8, 1), (10, 0), (13, 3)] };
+    for &(v, e) in cells {
+        let nb = NUM_BLOCKS[e][v - 1];
+        let ec = EC_PER_BLOCK[e][v - 1];
+        let tot = total_cw(v);
+        let nshort = nb - tot % nb;
+        let slen = tot / nb - ec;                                   // data codewords of a short block; long blocks have one more
+        let d = data_cw(v, e);
+        let h = if v <= 9 { 3usize } else { 5 };
+        let n = d - (h + 1) / 2;
+        if nb < 3 { continue; }
+        let start = |b: usize| if b < nshort { b * slen } else { nshort * slen + (b - nshort) * (slen + 1) };
+        let len = |b: usize| if b < nshort { slen } else { slen + 1 };
+        let shape = |r: &mut rand::rngs::StdRng, kind: usize, l: usize, other: &[u8]| -> Vec<u8> {
+            let alt = |phase: usize| -> Vec<u8> { (0..l).map(|i| if (i + phase) % 2 == 0 { 0xEC } else { 0x11 }).collect() };
+            match kind {
+                0 => alt(0), 1 => alt(1),
+                2 => { let mut x = alt(0); x[l - 1] = r.gen(); x }, 3 => { let mut x = alt(1); x[l - 1] ^= 0xFD; x },
+                4 => { let mut x = alt(0); x[0] = r.gen(); x }, 5 => { let mut x = alt(0); x[l / 2] ^= 1; x },
+                6 => vec![0u8; l], 7 => vec![0xFF; l],
+                8 => other.iter().cloned().chain(std::iter::repeat(0x55)).take(l).collect(),                        // copy (padded / cut to this block's length)
+                9 => other.iter().rev().cloned().chain(std::iter::repeat(0xAA)).take(l).collect(),                  // reversed
+                10 => { let mut x: Vec<u8> = other.iter().cloned().chain(std::iter::repeat(0x33)).take(l).collect(); x.rotate_left(1); x },
+                _ => { let mut x: Vec<u8> = other.iter().cloned().chain(std::iter::repeat(0xEC)).take(l).collect(); x[l - 1] = x[l - 1].wrapping_add(1); x },     // copy with the last codeword changed
+            }
+        };
+        let pairs: Vec<(usize, usize)> = (0..12usize).flat_map(|a| (0..12usize).map(move |b| (a, b))).filter(|(a, b)| (a * 5 + b * 3) % (if thorough { 2 } else { 5 }) == (seed % 2) as usize || (*a < 2 && (2..6).contains(b))).collect();
+        for (pi, (ka, kb)) in pairs.into_iter().enumerate() {
+            // two blocks other than block 0 (which holds the header): both short, both long, or one of each
+            let cands: Vec<usize> = (1..nb).collect();
+            let ba = cands[(pi * 7) % cands.len()];
+            let bb = cands[(pi * 7 + 1 + pi % (cands.len() - 1)) % cands.len()];
+            if ba == bb { continue; }
+            let mut cw: Vec<u8> = (0..d).map(|_| r.gen()).collect();
+            let sa = shape(&mut r, ka, len(ba), &[]);
+            cw[start(ba)..start(ba) + len(ba)].copy_from_slice(&sa);
+            let sb = shape(&mut r, kb, len(bb), &sa);
+            cw[start(bb)..start(bb) + len(bb)].copy_from_slice(&sb);
+            // codewords -> nibbles -> payload bytes (the header nibbles and the final terminator nibble are not ours)
+            let mut nib: Vec<u8> = cw.iter().flat_map(|c| [c >> 4, c & 15]).collect();
+            nib[2 * d - 1] = 0;
+            let bytes: Vec<u8> = (0..n).map(|j| (nib[h + 2 * j] << 4) | nib[h + 2 * j + 1]).collect();
+            out.push(spec(bytes, Some(e), Some(2), Some(v), Some(pi % 8), format!("shapedblock:{v}:{e}:{ka}:{kb}")));
+        }
+    }
     out
 }
 
